@@ -134,8 +134,8 @@ def method_rules(methods, selfname='self'):
             (r'(\b[A-Za-z_]\w*)\.%s\(' % e, r'%s(&\1, ' % cname, None),
             (r'(\b[A-Za-z_]\w*)->%s\(\s*\)' % e, r'%s(\1)' % cname, None),
             (r'(\b[A-Za-z_]\w*)->%s\(' % e, r'%s(\1, ' % cname, None),
-            (r'(?<![\w.>])%s\(\s*\)' % e, '%s(%s)' % (cname, selfname), None),
-            (r'(?<![\w.>])%s\(' % e, '%s(%s, ' % (cname, selfname), None),
+            (r'(?<![\w.>:])%s\(\s*\)' % e, '%s(%s)' % (cname, selfname), None),
+            (r'(?<![\w.>:])%s\(' % e, '%s(%s, ' % (cname, selfname), None),
         ]
     return rs
 
@@ -152,6 +152,8 @@ COMMON_RULES = [
     (r'(?<![\w>.])ULong\((?!\*)', '(ULong)(', None),
     (r'(?<![\w>.])double\((?!\*)', '(double)(', None),
     (r'(?<![\w>.])float\((?!\*)', '(float)(', None),
+    (r'(?<![\w>.])size_t\((?!\*)', '(size_t)(', None),
+    (r'(?<![\w>.])wchar_t\((?!\*)', '(wchar_t)(', None),
     (r'\bNULL\b', '((void*)0)', None),
 ]
 
@@ -322,7 +324,7 @@ class Unit:
                  bound=None, variants=None, replace=(), loop_contracts=None, flags=(), unwind=None,
                  timeout=300, solver='cadical', floor=1, expect=(), tier='quick', planted=(),
                  trusted=(), assumes=(), replay=None, checks=None, desc='', objbits=None,
-                 functions=None, nondet_static=False, extra_instr=()):
+                 functions=None, nondet_static=False, extra_instr=(), variant_flags=None, variant_kind=None):
         self.name, self.prop, self.text, self.cuts = name, prop, text, list(cuts)
         self.entry, self.harness, self.kind, self.bound = entry, harness, kind, bound
         self.variants = variants or {'': []}
@@ -335,6 +337,8 @@ class Unit:
         self.loop_contracts = loop_contracts
         self.functions = functions or ([entry] if entry else [])
         self.extra_instr = list(extra_instr)
+        self.variant_flags = variant_flags or {}
+        self.variant_kind = variant_kind or {}
 
     def generate(self, edit=None):
         """returns C text.  edit: optional (regex, repl) applied to the *extracted* text (planted breaks)."""
@@ -477,7 +481,7 @@ def run_unit(unit, variant, workdir, edit=None, trace_prop=None, extra_defs=()):
                 b = a
         r.gb = b
         checks = unit.checks if unit.checks is not None else DEFAULT_CHECKS
-        cmd = ['cbmc', b] + checks + list(unit.flags)
+        cmd = ['cbmc', b] + checks + list(unit.flags) + list(unit.variant_flags.get(variant, []))
         if unit.unwind:
             cmd += ['--unwind', str(unit.unwind), '--unwinding-assertions']
         if unit.objbits:
@@ -551,7 +555,7 @@ def parse_cbmc(out, r, rc):
     if bad:
         raise Undecided('obligation %s has status %s' % (bad[0]['id'], bad[0]['status']))
     u = r.unit
-    if u.unwind:
+    if u.unwind or '--unwind' in u.variant_flags.get(r.variant, []):
         uw = [o for o in r.obligations if o['cls'] == 'unwind' and o['status'] == 'FAILURE']
         if uw:
             raise Undecided('unwinding assertion %s failed (bound %s too small)' % (uw[0]['id'], u.unwind))
